@@ -159,7 +159,10 @@ static ares_status_t init_by_defaults(ares_channel_t *channel)
 
     rc = ares_sconfig_append(channel, &sconfig, &addr, 0, 0, NULL);
     if (rc != ARES_SUCCESS) {
-      goto error; /* LCOV_EXCL_LINE: OutOfMemory */
+      /* LCOV_EXCL_START: OutOfMemory */
+      ares_llist_destroy(sconfig);
+      goto error;
+      /* LCOV_EXCL_STOP */
     }
 
     rc = ares_servers_update(channel, sconfig, ARES_FALSE);
